@@ -27,6 +27,8 @@ pub struct Db {
     /// as-sets whose members query is answered with an error response (the reference treats
     /// them as unobtainable)
     pub broken_as_sets: BTreeMap<String, Fault>,
+    /// as-set whose members query makes the IRR connection break (every later read/write fails)
+    pub reset_on_as_set: Option<String>,
 }
 
 impl Db {
@@ -307,6 +309,8 @@ pub struct IrrState {
     pub short_reads: usize,
     pub partial_writes: usize,
     pub bytes_out: usize,
+    /// the connection has been reset: every read and write fails
+    pub dead: bool,
 }
 
 pub type SharedIrr = Arc<Mutex<IrrState>>;
@@ -339,7 +343,22 @@ impl IrrState {
             };
         }
         if let Some(rest) = line.strip_prefix("!i") {
+            let recursive = rest.ends_with(",1");
             let name = rest.strip_suffix(",1").unwrap_or(rest);
+            if self.db.reset_on_as_set.as_deref().is_some_and(|s| s.eq_ignore_ascii_case(name)) {
+                self.dead = true;
+                self.faults_fired.push((k, format!("RESET {line}"), Fault::Other));
+                return String::new();
+            }
+            if !recursive {
+                // direct members only: nested sets come back as names
+                let key = name.to_ascii_uppercase();
+                let members = self.db.route_sets.get(&key).or_else(|| self.db.as_sets.get(&key));
+                return match members {
+                    Some(m) => data(&m.join(" ")),
+                    None => "D\n".into(),
+                };
+            }
             if name.to_ascii_uppercase().contains("RS-") {
                 return match self.db.expand_route_set(name) {
                     Some(ps) => data(&ps.join(" ")),
@@ -406,6 +425,9 @@ impl std::fmt::Debug for SharedIrrDbg {
 impl irrc::SimStream for IrrStream {
     fn write(&mut self, buf: &[u8]) -> std::io::Result<usize> {
         let mut st = self.state.0.lock().unwrap();
+        if st.dead {
+            return Err(std::io::Error::new(std::io::ErrorKind::BrokenPipe, "FakeIrrd: connection reset"));
+        }
         // partial writes
         let n = match (st.seg_mode, &mut st.seg_rng) {
             (0, _) | (_, None) => buf.len(),
@@ -433,6 +455,9 @@ impl irrc::SimStream for IrrStream {
     }
     fn read(&mut self, buf: &mut [u8]) -> std::io::Result<usize> {
         let mut st = self.state.0.lock().unwrap();
+        if st.dead {
+            return Err(std::io::Error::new(std::io::ErrorKind::ConnectionReset, "FakeIrrd: connection reset"));
+        }
         if self.out.is_empty() {
             // a real socket would block for ever: the client reads only when it expects data
             return Err(std::io::Error::new(std::io::ErrorKind::TimedOut, "FakeIrrd: client reads but no response is outstanding"));
@@ -533,6 +558,9 @@ impl Resolver<'_, FilterSet, MpFilterExpr> for Reference<'_> {
 impl Resolver<'_, AsSet, PrefixSet<Any>> for Reference<'_> {
     type IError = RefError;
     fn resolve(&mut self, name: &AsSet) -> Result<PrefixSet<Any>, RefError> {
+        if self.db.reset_on_as_set.as_deref().is_some_and(|s| s.eq_ignore_ascii_case(&name.to_string())) {
+            return Err(RefError(format!("the IRR connection breaks (io) while the members query of {name} is outstanding")));
+        }
         if self.db.broken_as_sets.contains_key(&name.to_string().to_ascii_uppercase()) {
             return Err(RefError(format!("the IRR answers the members query of {name} with an error")));
         }
